@@ -784,6 +784,12 @@ fn x_ty2(o: &mut String, t: &Ty2) {
       x_ty(o, ty);
       o.push(')');
     }
+    // `#6` / `#6.n` without content: the crate stores it as tagged data with an empty type
+    Ty2::Major { mt: 6, num } => {
+      o.push_str("(tag ");
+      x_tagnum(o, num);
+      o.push_str(" (T))");
+    }
     Ty2::Major { mt, num } => {
       let _ = write!(o, "(major {} ", mt);
       x_tagnum(o, num);
